@@ -115,6 +115,7 @@ def scene_case(spec):
         # beyond one byte
         cfg["out_dirs"] = (int(rng.integers(17, 21)), 16, float(np.round(rng.uniform(0.05, 0.3), 4)))
         out["dist"]["outgoing_sampling_over_256"] = 1
+    cfg["prebake"] = bool(spec["idx"] % 2)       # every other scene: bake_geometry before the materials, and again after
     radi = S.build(cfg)
     src = S.draw_inside(rng, cfg["dims"])
     recs = [S.draw_inside(rng, cfg["dims"])]
